@@ -267,11 +267,14 @@ func (g *G) GenCall(p *Profile, rules []*RuleDef, idx int) *Call {
 		}
 		if len(g.LastNames) > 0 && g.Pct(20) {
 			// the same selection as an earlier call, byte for byte (whatever happened to the rule set since)
-			c.Names = append([]string(nil), g.LastNames[g.Intn(len(g.LastNames))]...)
+			// (the caller's own slice variable again: the very same object, so a library that edits it in place is found out)
+			c.PassNames = g.LastNames[g.Intn(len(g.LastNames))]
+			c.Names = append([]string(nil), c.PassNames...)
 		} else {
 			c.Names = g.GenNames(p, rules, want)
+			c.PassNames = append([]string(nil), c.Names...)
 		}
-		g.LastNames = append(g.LastNames, c.Names)
+		g.LastNames = append(g.LastNames, c.PassNames)
 	}
 	if c.Method == MDAG {
 		layers, maxW := g.Range(0, 4), 4
